@@ -119,6 +119,27 @@ pub fn check(prop_values: bool, prop_signals: bool, d: &reg::IDesc, cfg: &dyn DC
 				}
 			}
 		}
+		// documentation-vs-code: where the documented rule differs from what the code does, the code's rule is
+		// what is checked above; a step on which the two rules give different answers is reported under its own signature
+		if prop_signals {
+			for (what, k, e) in rf.doc_signals() {
+				if let (Some(got), Some(code)) = (res.signals().get(k), es.get(k)) {
+					if !matches!(e, Sig::Exempt) && !matches!(code, Sig::Exempt) && sig_ok(code, *got) && !sig_ok(&e, *got) {
+						r.violate(&format!("C06|{}|signal{k}|{what}", d.name), "the signal follows the implementation's rule, which differs from the documented rule on this step", || case(format!("doc-signal{k}"), json!({"got": format!("{got:?}"), "documented_rule_gives": format!("{e:?}")})));
+					}
+				}
+			}
+		}
+		if prop_values {
+			for (what, k, e) in rf.doc_values() {
+				if let (Some(got), Some(code)) = (res.values().get(k), ev.get(k)) {
+					let g = *got as f64;
+					if !e.is_undefined() && !code.is_undefined() && code.contains(g) && !e.contains(g) {
+						r.violate(&format!("C05|{}|value{k}|{what}", d.name), "the value follows the implementation's formula, which differs from the documented one on this step", || case(format!("doc-value{k}"), json!({"got": fj(g), "documented_formula_gives": fj(e.v)})));
+					}
+				}
+			}
+		}
 		if vfail.iter().all(|x| *x) && sfail.iter().all(|x| *x) && (nv + ns) > 0 {
 			break;
 		}
